@@ -36,7 +36,7 @@ ASSUMPTIONS = [
 ]
 BUDGET = {
     "quick": dict(cases=1000, shards=4, timeout=1800),
-    "thorough": dict(cases=8000, shards=16, timeout=5400),
+    "thorough": dict(cases=6000, shards=16, timeout=5400),
 }
 ER_CLASSES = [c for c in G.CLASSES if c != "nondyadic"] + ["sub_eq_insdel", "sub_gt_insdel"]
 LOSS_CLASSES = ["loss_ref2d", "loss_ref3d", "loss_spread", "loss_equal_costs", "loss_tie_costs",
@@ -44,7 +44,7 @@ LOSS_CLASSES = ["loss_ref2d", "loss_ref3d", "loss_spread", "loss_equal_costs", "
 CLASSES = ER_CLASSES + LOSS_CLASSES + ["zero_dim_eos"]
 FLOORS = {
     "quick": {
-        "events": {"error_rate": 2500, "prefix_error_rates": 2500, "minimum_error_rate_loss": 800,
+        "events": {"error_rate": 2000, "prefix_error_rates": 2000, "minimum_error_rate_loss": 700,
                    "assert:count-of-some-optimal-alignment": 20000,
                    "assert:within-optimal-interval": 20000,
                    "assert:equals-plain-levenshtein": 5000,
@@ -56,7 +56,7 @@ FLOORS = {
         "stats": {"pairs_lo_lt_hi": 300, "cheapest_not_shortest": 300, "loss_rate_sets_nonsingleton": 20,
                   "loss_reduction_none": 200, "loss_reduction_sum": 200, "loss_reduction_mean": 200,
                   "form_module": 800, "loss_zero_width_tensor": 15},
-        "distinct": 2500,
+        "distinct": 2000,
     },
     "thorough": {
         "events": {"error_rate": 100000, "prefix_error_rates": 100000, "minimum_error_rate_loss": 30000,
@@ -444,6 +444,10 @@ PYTEST_FILES = ["tests/test_string.py"]
 
 
 def hook_case(module, args, kwargs, output):
+    import torch
+
+    if torch.jit.is_tracing() or torch.jit.is_scripting():
+        return None  # shapes are traced values there; the eager calls of the same tests are observed
     name = type(module).__name__
     if name in ("ErrorRate", "PrefixErrorRates"):
         ref, hyp = args[0], args[1]
@@ -471,7 +475,7 @@ def hook_case(module, args, kwargs, output):
         if not bf:
             hyp = hyp.permute(1, 2, 0)
             ref = ref.permute(1, 2, 0) if ref3d else ref.t()
-        N, M, H = hyp.shape
+        N, M, H = (int(x) for x in hyp.shape)
         if M < 2 or N == 0 or H == 0 or ref.shape[-1] == 0:
             return None
         return {
